@@ -123,6 +123,8 @@ package mem
 
 //@ pred storageWF(s) = s.unitSize > 0 && s.unitSize <= 1<<40 && s.capacity <= 1<<62 && s.data != nil && (forall k uint64 :: k in s.data ==> s.data[k] != nil && len(s.data[k].data) == int(s.unitSize))
 
+// The flat byte-array view (storageFlat and its lemmas) is in zz_contracts_C20view_verif.go.
+
 //@ fn (*Storage).parseAddress
 //@   property C20
 //@   requires s.unitSize > 0
@@ -141,19 +143,23 @@ package mem
 //@   requires uintSize <= 1<<40
 //@   label C20.newunit
 //@   ensures result != nil && fresh(result) && fresh(result.data) && len(result.data) == int(uintSize)
+//@   label C20.newunit.owned
+//@   ensures result <= allocTop && ref(result.data) <= allocTop
 //@   label C20.newunit.zero
 //@   ensures forall j in 0..int(uintSize) :: result.data[j] == 0
 //@   assigns nothing
 
 //@ fn (*Storage).createOrGetStorageUnit
 //@   property C20
-//@   requires storageWF(s)
+//@   requires storageFlat(s)
+//@   use forall q in 0..18446744073709551616 :: multApart(int(s.unitSize), int(address) / int(s.unitSize), q)
+//@   use forall q in 0..18446744073709551616 :: multApart(int(s.unitSize), q, int(address) / int(s.unitSize))
 //@   label C20.getunit.beyond
 //@   ensures address > s.capacity ==> result0 == nil && result1 != nil && nothingAssigned()
 //@   label C20.getunit.ok
 //@   ensures address <= s.capacity ==> result1 == nil && result0 != nil && ((int(address) - int(address) % int(s.unitSize)) in s.data) && s.data[int(address) - int(address) % int(s.unitSize)] == result0
 //@   label C20.getunit.wf
-//@   ensures storageWF(s)
+//@   ensures storageFlat(s)
 //@   label C20.getunit.others
 //@   ensures forall k uint64 :: k != int(address) - int(address) % int(s.unitSize) ==> ((k in s.data) <==> old(k in s.data)) && s.data[k] == old(s.data[k])
 //@   label C20.getunit.existing
@@ -164,24 +170,50 @@ package mem
 
 //@ fn (*Storage).Read
 //@   property C20
-//@   requires storageWF(s)
+//@   requires storageFlat(s)
+//@   witness rU map = gU
 //@   label C20.read.bounds
 //@   ensures int(address) + int(len) > int(s.capacity) ==> result1 != nil
 //@   label C20.read.ok
-//@   ensures int(address) + int(len) <= int(s.capacity) ==> result1 == nil && len(result0) == int(len)
+//@   ensures int(address) + int(len) <= int(s.capacity) ==> result1 == nil && len(result0) == int(len) && fresh(result0)
 //@   label C20.read.error.unchanged
 //@   ensures result1 != nil ==> nothingAssigned()
 //@   label C20.read.wf
-//@   ensures storageWF(s)
+//@   ensures storageFlat(s)
+//@   label C20.read.kept
+//@   ensures forall k uint64 :: old(k in s.data) ==> (k in s.data) && s.data[k] == old(s.data[k])
+//@   label C20.read.contents.unchanged
+//@   ensures forall k uint64 :: old(k in s.data) ==> forall j in 0..usz(s) :: s.data[k].data[j] == old(s.data[k].data[j])
+//@   label C20.read.created.zero
+//@   ensures forall k uint64 :: (k in s.data) && !old(k in s.data) ==> forall j in 0..usz(s) :: s.data[k].data[j] == 0
+//@   label C20.read.covered
+//@   ensures result1 == nil ==> forall i in 0..int(len) :: (rU[i] in s.data) && 0 <= rU[i] && rU[i] <= int(address) + i && int(address) + i < rU[i] + usz(s)
+//@   label C20.read.bytes
+//@   ensures result1 == nil ==> forall i in 0..int(len) :: result0[i] == s.data[rU[i]].data[int(address) + i - rU[i]]
+//@   label C20.read.view
+//@   ensures result1 == nil ==> forall k uint64 :: k in s.data ==> forall j in 0..usz(s) :: int(address) <= k + j && k + j < int(address) + int(len) ==> result0[k + j - int(address)] == s.data[k].data[j]
 //@   assigns elems(s.data)
-//@   loop 0: invariant storageWF(s)
-//@   loop 0: invariant int(currAddr) == int(address) + int(dataOffset) && int(dataOffset) + int(lenLeft) == int(len)
+//@   loop 0: ghost dn = 0
+//@   loop 0: backedge dn = int(dataOffset)
+//@   loop 0: ghost gU = idperm
+//@   loop 0: backedge gU = mapof(i, i >= dn ? int(baseAddr) : gU[i])
+//@   loop 0: invariant storageFlat(s)
+//@   loop 0: invariant int(currAddr) == int(address) + int(dataOffset) && int(dataOffset) + int(lenLeft) == int(len) && dn == int(dataOffset)
 //@   loop 0: invariant int(address) + int(len) <= int(s.capacity)
 //@   loop 0: invariant len(res) == int(len) && fresh(res)
+//@   loop 0: decreases int(lenLeft)
+//@   loop 0: invariant forall k uint64 :: k in s.data ==> ref(s.data[k].data) != ref(res)
+//@   loop 0: invariant forall k uint64 :: old(k in s.data) ==> (k in s.data) && s.data[k] == old(s.data[k])
+//@   loop 0: invariant forall k uint64 :: old(k in s.data) ==> forall j in 0..usz(s) :: s.data[k].data[j] == old(s.data[k].data[j])
+//@   loop 0: invariant forall k uint64 :: (k in s.data) && !old(k in s.data) ==> forall j in 0..usz(s) :: s.data[k].data[j] == 0
+//@   loop 0: invariant forall i in 0..dn :: (gU[i] in s.data) && 0 <= gU[i] && gU[i] <= int(address) + i && int(address) + i < gU[i] + usz(s)
+//@   loop 0: invariant forall i in 0..dn :: res[i] == s.data[gU[i]].data[int(address) + i - gU[i]]
 
 //@ fn (*Storage).Write
 //@   property C20
-//@   requires storageWF(s)
+//@   requires storageFlat(s)
+//@   requires forall k uint64 :: k in s.data ==> ref(s.data[k].data) != ref(data)   // the caller's buffer is not a unit's backing array
+//@   witness wU map = gU
 //@   label C20.write.bounds
 //@   ensures int(address) + len(data) > int(s.capacity) ==> result != nil
 //@   label C20.write.ok
@@ -189,11 +221,30 @@ package mem
 //@   label C20.write.error.unchanged
 //@   ensures result != nil ==> nothingAssigned()
 //@   label C20.write.wf
-//@   ensures storageWF(s)
+//@   ensures storageFlat(s)
+//@   label C20.write.kept
+//@   ensures forall k uint64 :: old(k in s.data) ==> (k in s.data) && s.data[k] == old(s.data[k])
+//@   label C20.write.view
+//@   ensures result == nil ==> forall k uint64 :: k in s.data ==> forall j in 0..usz(s) :: s.data[k].data[j] == ((int(address) <= k + j && k + j < int(address) + len(data)) ? data[k + j - int(address)] : (old(k in s.data) ? old(s.data[k].data[j]) : 0))
+//@   label C20.write.buffer.unchanged
+//@   ensures forall i in 0..len(data) :: data[i] == old(data[i])
+//@   label C20.write.covered
+//@   ensures result == nil ==> forall i in 0..len(data) :: (wU[i] in s.data) && 0 <= wU[i] && wU[i] <= int(address) + i && int(address) + i < wU[i] + usz(s)
 //@   assigns elems(s.data), key("E|uint8|")
-//@   loop 0: invariant storageWF(s)
-//@   loop 0: invariant int(currAddr) == int(address) + int(dataOffset) && int(dataOffset) <= len(data)
+//@   loop 0: ghost dn = 0
+//@   loop 0: backedge dn = int(dataOffset)
+//@   loop 0: ghost gU = idperm
+//@   loop 0: backedge gU = mapof(i, i >= dn ? int(athead(currAddr)) - int(inUnitAddr) : gU[i])
+//@   loop 0: invariant storageFlat(s)
+//@   loop 0: invariant int(currAddr) == int(address) + int(dataOffset) && int(dataOffset) <= len(data) && dn == int(dataOffset)
 //@   loop 0: invariant int(address) + len(data) <= int(s.capacity)
+//@   loop 0: invariant forall k uint64 :: old(k in s.data) ==> (k in s.data) && s.data[k] == old(s.data[k])
+//@   loop 0: invariant forall k uint64 :: k in s.data ==> ref(s.data[k].data) != ref(data)
+//@   loop 0: invariant forall i in 0..len(data) :: data[i] == old(data[i])
+//@   loop 0: decreases len(data) - int(dataOffset)
+//@   loop 0: invariant forall i in 0..dn :: (gU[i] in s.data) && 0 <= gU[i] && gU[i] <= int(address) + i && int(address) + i < gU[i] + usz(s)
+//@   loop 0: invariant dn > 0 ==> (gU[dn - 1] in s.data) && 0 <= gU[dn - 1] && gU[dn - 1] < int(currAddr) && int(currAddr) <= gU[dn - 1] + usz(s)
+//@   loop 0: invariant forall k uint64 :: k in s.data ==> forall j in 0..usz(s) :: s.data[k].data[j] == ((int(address) <= k + j && k + j < int(currAddr)) ? data[k + j - int(address)] : (old(k in s.data) ? old(s.data[k].data[j]) : 0))
 
 // ---- C20 / C07: storage checkpoint loading ----
 
